@@ -1,6 +1,7 @@
 package zzharness
 
 import (
+	"strings"
 	"fmt"
 	"sort"
 	"testing"
@@ -365,10 +366,14 @@ func init() {
 		Level: "fault_enumeration",
 		Rule: "for each seeded write history (put/delete/flush/sync/reopen/force-compaction over 1..12 keys, block 64B..16KiB, v2 writer or chronicler) every prefix of the recorded disk operation log is materialised as a crash image " +
 			"(plus torn variants of the in-flight write: every byte for writes <=128B in the thorough tier, else first/middle/last byte), loaded by a fresh incarnation, and then written to again; " +
-			"non-trivial = image whose cut lies after the last completed fsync (unsynced data or an in-flight write exists); distinct = hash of (history, cut, torn)",
-		Gen: genC02,
-		Run: runC02,
-		Assumptions: []string{"crash model: the persisted state is a prefix of the operation log, at least up to the last completed fsync, plus an arbitrary byte prefix of the next write; renames are atomic; no reordering of unsynced writes is assumed",
+			"non-trivial = image whose cut lies after the last completed fsync (unsynced data or an in-flight write exists); distinct = hash of (history, cut, torn); " +
+			"a quarter of the workers run the same crash enumeration against the WHOLE in-process server (gateway -> hydra -> swamp -> write ticker -> chronicler; sequential Set/Delete/ShiftByKeys/waits/graceful restarts, write interval 0/1 s, idle close 2 s or off) inside synctest bubbles: " +
+			"each sampled crash image is served by a new server incarnation, read through the API, written to again, flushed, stopped and restarted",
+		Gen:     genC02,
+		Run:     runC02,
+		SimCase: func(c Case) bool { return c.cfg("layer", 1) == 2 },
+		Assumptions: []string{"whole-server cases (a quarter of the workers): durable = acknowledged (write interval 0) or acknowledged before an idle wait >= 1.5 s / a graceful stop (write interval 1 s); judged per key: the value after some request between the durable point and everything started; cuts sampled from the first operation on the swamp file on (24 per history in the quick tier, up to 400 in the thorough tier)",
+			"crash model: the persisted state is a prefix of the operation log, at least up to the last completed fsync, plus an arbitrary byte prefix of the next write; renames are atomic; no reordering of unsynced writes is assumed",
 			"the recovered state may be any entry-granular prefix between the last durable point and everything issued (superset of flush-boundary states)"},
 		Real: storageReal,
 		Stub: storageStub,
@@ -376,6 +381,9 @@ func init() {
 }
 
 func genC02(seed uint64, tier string) Case {
+	if strings.HasSuffix(tier, "+sim") {
+		return genC02G(seed, strings.TrimSuffix(tier, "+sim"))
+	}
 	r := newRng(seed, "c02")
 	c := Case{Prop: "C02", Seed: seed, Cfg: map[string]int64{}}
 	c.Cfg["layer"] = int64(r.pick(1, 3))
@@ -435,6 +443,9 @@ func genSmallStorageOps(r *rng, maxOps int, compaction bool) []Op {
 }
 
 func runC02(t *testing.T, c Case) (res Result) {
+	if c.cfg("layer", 1) == 2 {
+		return runC02G(t, c)
+	}
 	defer func() {
 		if r := recover(); r != nil {
 			res = violation("panic", "engine panicked: %v", r)
